@@ -80,7 +80,8 @@ ANY_CALL_CTX = {"knock_out": ["bounds", "genes"]}
 FUNC_CTX = {"set_objective": ["objective", "direction"], "knock_out_model_genes": ["bounds", "genes"], "fix_objective_as_constraint": ["consvars"],
             "add_absolute_expression": ["consvars"], "add_lp_feasibility": ["consvars", "objective", "direction"],
             "add_lexicographic_constraints": ["consvars", "objective", "direction"], "remove_genes": ["structure", "genes"],
-            "delete_model_genes": ["bounds", "genes"], "undelete_model_genes": ["bounds", "genes"]}
+            "delete_model_genes": ["bounds", "genes"], "undelete_model_genes": ["bounds", "genes"],
+            "add_cons_vars_to_problem": ["consvars"], "remove_cons_vars_from_problem": ["consvars"]}
 FRESH_CTORS = {"Variable", "Constraint", "Objective", "Reaction", "Metabolite"}
 
 
@@ -576,6 +577,11 @@ class Summ:
                     return self.seq([self.writes("ctxWrite", MODEL_CALL_CTX[name]), ("mayRaise",)])
             if name in ANY_CALL_CTX:
                 return self.seq([self.writes("ctxWrite", ANY_CALL_CTX[name]), ("mayRaise",)])
+            if name in ("add", "remove", "_add_constraints", "_add_variables", "_remove_constraints", "_remove_variables") and \
+                    self.chain(base)[-1:] in (["solver"], ["_solver"]):
+                # constraints / variables put into the solver directly: no undo is recorded anywhere
+                self.note(node, f"solver.{name} -> rawWrite solver")
+                return self.seq([("rawWrite", "solver"), ("mayRaise",)])
             if name == "set_linear_coefficients":
                 if self.root(base) in env["fresh"]:
                     return ("skip",)
@@ -585,16 +591,17 @@ class Summ:
                 # pool.imap_unordered(f, …): the workers hold their own unpickled copy of the model
                 inner = [self.func_ref(a, env, pooled=True) for a in args]
                 return self.seq([("onCopy", self.seq(inner)), ("mayRaise",)])
-        if isinstance(f, ast.Name):
+        if isinstance(f, ast.Name) or (isinstance(f, ast.Attribute) and isinstance(f.value, ast.Name) and env["module"] is not None
+                                       and inspect.ismodule(getattr(env["module"], f.value.id, None))):
             if name in FUNC_CTX:
                 if args and (self.is_alias_expr(args[0], env) or not self.on_copy(args[0], env)):
                     if args and self.on_copy(args[0], env):
                         return ("onCopy", ("mayRaise",))
                     return self.seq([self.writes("ctxWrite", FUNC_CTX[name]), ("mayRaise",)])
-            if name == "map":
+            if name == "map" and isinstance(f, ast.Name):
                 inner = [self.func_ref(a, env, pooled=False) for a in args]
                 return self.seq([("loop", self.seq(inner)), ("mayRaise",)])
-            if name in ("ProcessPool", "Pool"):
+            if name in ("ProcessPool", "Pool") and isinstance(f, ast.Name):
                 inner = []
                 for k in node.keywords:
                     if k.arg == "initializer":
